@@ -27,6 +27,7 @@ type PropSpec struct {
 	Bounded     []string `json:"bounded"`      // functions only checked with a bound (never counted as proved)
 	Note        string   `json:"note"`
 	Syntactic   []string `json:"syntactic"`    // names of syntactic discipline checks to run (see synt.go)
+	Rows        []string `json:"rows"`         // registration tables whose rows are obligations (regtab.go)
 }
 
 // Twin is a must-fail variant: the named function is regenerated with one
@@ -263,6 +264,11 @@ func cmdProp(args []string) int {
 	}
 	for _, sc := range ps.Syntactic {
 		obls = append(obls, w.SyntChecks(sc)...)
+	}
+	for _, tb := range ps.Rows {
+		ro, errs := w.RowObligations(tb)
+		obls = append(obls, ro...)
+		genErrors = append(genErrors, errs...)
 	}
 	// the word-level memory axioms used by every VC are proved from their byte-level definitions
 	obls = append(obls, MemLemmas()...)
